@@ -287,41 +287,60 @@ def _execute(spec, ses, seam):
                             kv, key_part[kv], pi, spec["twin"]["dtype"])), ses, counters, spec, seam, faults)
         elif out.cls != "refusal":
             return _done(_viol("twin_failed", exc_signature(out.exc), out.detail), ses, counters, spec, seam, faults)
-    # partd faults (disk method)
+    # partd faults (disk method): the drawn position plus, for small graphs, every append / read position
     f = (spec.get("partd") or {}).get("fault")
     if f and spec["method"] == "disk":
-        counters["fault_runs"] += 1
+        # how many appends / reads one fault-free run performs with this buffer size
         seam.appends = 0
         seam.gets = 0
-        if f["kind"] in ("append", "torn"):
-            seam.fail_append_at = f["at"]
-            seam.torn = f["kind"] == "torn"
-        else:
-            seam.fail_get_at = f["at"]
-        out, _ = _partitions(ses, sh, S.World.from_json(spec["worlds"][0]), fuse)
-        fired = list(seam.fired)
-        seam.disarm()
-        for k in fired:
-            faults[k] = faults.get(k, 0) + 1
-        if fired:
-            if out.cls == "ok":
-                # a frame came back although a write/read failed underneath
-                allrows = pd.concat(out.obs) if len(out.obs) > 1 else out.obs[0]
-                got_obs = observe(allrows, labels=not ii, order=False, kinds=False)
-                eq, why = obs_equal(in_obs, got_obs)
-                return _done(_viol("fault_swallowed", fired[0] + (":rows_lost" if not eq else ":complete"),
-                                   "compute returned a frame although %s fired (%s)" % (fired[0], why or "rows complete")), ses, counters, spec, seam, faults)
-            counters["fault_raised"] += 1
-            # recovery: the same collection computed again, fault-free, is correct
-            out2, _ = _partitions(ses, sh, S.World.from_json(spec["worlds"][0]), fuse)
-            if out2.cls != "ok":
-                return _done(_viol("no_recovery", exc_signature(out2.exc) if out2.exc else out2.cls, out2.detail), ses, counters, spec, seam, faults)
-            allrows = pd.concat(out2.obs) if len(out2.obs) > 1 else out2.obs[0]
-            eq, why = obs_equal(in_obs, observe(allrows, labels=not ii, order=False, kinds=False))
-            if not eq:
-                return _done(_viol("no_recovery", "rows", "after a failed shuffle the next compute lost/duplicated rows: " + why), ses, counters, spec, seam, faults)
-        else:
-            counters["fault_not_reached"] += 1
+        probe, _ = _partitions(ses, sh, S.World.from_json(spec["worlds"][0]), fuse)
+        n_app, n_get = seam.appends, seam.gets
+        positions = [(f["kind"], f["at"])]
+        if spec.get("enumerate_faults", True):
+            if 0 < n_app <= 6:
+                positions += [("append", k) for k in range(n_app)]
+            if 0 < n_get <= 4:
+                positions += [("get", k) for k in range(n_get)]
+        seen_pos = set()
+        for kind_, at_ in positions:
+            if (kind_, at_) in seen_pos:
+                continue
+            seen_pos.add((kind_, at_))
+            counters["fault_runs"] += 1
+            seam.appends = 0
+            seam.gets = 0
+            seam.fired = []
+            seam.fail_append_at = seam.fail_get_at = None
+            if kind_ in ("append", "torn"):
+                seam.fail_append_at = at_
+                seam.torn = kind_ == "torn"
+            else:
+                seam.fail_get_at = at_
+            out, _ = _partitions(ses, sh, S.World.from_json(spec["worlds"][0]), fuse)
+            fired = list(seam.fired)
+            seam.disarm()
+            for k in fired:
+                faults[k] = faults.get(k, 0) + 1
+            if fired:
+                if out.cls == "ok":
+                    # a frame came back although a write/read failed underneath
+                    allrows = pd.concat(out.obs) if len(out.obs) > 1 else out.obs[0]
+                    got_obs = observe(allrows, labels=not ii, order=False, kinds=False)
+                    eq, why = obs_equal(in_obs, got_obs)
+                    return _done(_viol("fault_swallowed", fired[0] + (":rows_lost" if not eq else ":complete"),
+                                       "compute returned a frame although %s fired at position %d (%s)" % (fired[0], at_, why or "rows complete")), ses, counters, spec, seam, faults)
+                counters["fault_raised"] += 1
+                # recovery: the same collection computed again, fault-free, is correct
+                out2, _ = _partitions(ses, sh, S.World.from_json(spec["worlds"][0]), fuse)
+                if out2.cls != "ok":
+                    return _done(_viol("no_recovery", exc_signature(out2.exc) if out2.exc else out2.cls, out2.detail), ses, counters, spec, seam, faults)
+                allrows = pd.concat(out2.obs) if len(out2.obs) > 1 else out2.obs[0]
+                eq, why = obs_equal(in_obs, observe(allrows, labels=not ii, order=False, kinds=False))
+                if not eq:
+                    return _done(_viol("no_recovery", "rows", "after a failed shuffle (fault at %s %d) the next compute lost/duplicated rows: %s" % (kind_, at_, why)), ses, counters, spec, seam, faults)
+            else:
+                counters["fault_not_reached"] += 1
+        counters["fault_positions_enumerated"] = counters.get("fault_positions_enumerated", 0) + (1 if len(seen_pos) > 1 else 0)
     return _done({"verdict": "ok", "nontrivial": nontrivial}, ses, counters, spec, seam, faults)
 
 
